@@ -11,6 +11,36 @@ import (
 
 func init() { register("C12", checkC12) }
 
+// openRequestLiteral: the Open Session Request literal handed to the call that performs the
+// Open Session exchange — the constructor's own call, or, when that is a wrapper spliced into
+// the view, the innermost call returning the response.
+func (c *Ctx) openRequestLiteral(m *ctorModel) *ssa.Alloc {
+	if m == nil || m.OpenCall == nil {
+		return nil
+	}
+	openReq := m.OpenCall
+	osr := c.Named("pkg/ipmi", "OpenSessionRsp")
+	reqT := c.Named("pkg/ipmi", "OpenSessionReq")
+	viewInstrs(m.Fn, func(in ssa.Instruction) {
+		call, ok := in.(*ssa.Call)
+		if !ok || !resultPtrTo(call, osr) {
+			return
+		}
+		as := callArgs(&call.Call)
+		if len(as) == 0 {
+			return
+		}
+		if al := allocThrough(as[len(as)-1]); al != nil && isPtrTo(al.Type(), reqT) {
+			openReq = call
+		}
+	})
+	args := callArgs(&openReq.Call)
+	if len(args) == 0 {
+		return nil
+	}
+	return allocThrough(args[len(args)-1])
+}
+
 func checkC12(c *Ctx, r *Report) {
 	r.Explain = "Cipher-suite selection and confirmation: (1) the default preference list and the two suite constants, read from the package initialisers, equal [17,3] and the specification triples; (2) in the selector: an empty list is replaced by the defaults, a single suite is returned without any call that can reach the transport, otherwise the returning loop walks the caller's list in ascending index order and returns the first element found in a set built from the advertised suites, exhaustion returns the no-supported-suite sentinel; (3) in the constructor the Open Session Request proposes the chosen suite's three algorithms respectively, every path that returns a session has compared each of the three algorithms in the Open Session Response equal with the proposed one, and the session records them; (4) the algorithm constructors never return (nil, nil) — an unsupported or None algorithm is an error — so no nil layer or hash is registered, invoked or used to sign. Decides structure on all paths; the discovery exchange itself is C16."
 	r.NotDecided = []string{"contents of the BMC's advertised list (C16)", "behaviour of BMCs that answer with wildcard payloads"}
@@ -601,26 +631,7 @@ func checkC12(c *Ctx, r *Report) {
 	// the request: the literal handed to the call that performs the Open Session exchange — the
 	// constructor's own call, or, when that is a wrapper spliced into the view, the innermost
 	// call returning the response
-	openReq := m.OpenCall
-	{
-		osr := c.Named("pkg/ipmi", "OpenSessionRsp")
-		reqT := c.Named("pkg/ipmi", "OpenSessionReq")
-		viewInstrs(m.Fn, func(in ssa.Instruction) {
-			call, ok := in.(*ssa.Call)
-			if !ok || !resultPtrTo(call, osr) {
-				return
-			}
-			as := callArgs(&call.Call)
-			if len(as) == 0 {
-				return
-			}
-			if al := allocThrough(as[len(as)-1]); al != nil && isPtrTo(al.Type(), reqT) {
-				openReq = call
-			}
-		})
-	}
-	args := callArgs(&openReq.Call)
-	reqLit := allocThrough(args[len(args)-1])
+	reqLit := c.openRequestLiteral(m)
 	// a field of the chosen suite, read where the request is built (possibly in a helper that
 	// received the suite as an argument)
 	isChosenField := func(v ssa.Value, field string) bool {
